@@ -216,6 +216,48 @@ def run_case(R, level, op, db, args):
         R.violation(case, "wrapper returned %r, pythonised raw result is %r" % (str(got)[:300], str(expect)[:300]), None)
         return
     R.mon["equal_to_raw"] += 1
+    if op in ("walk", "multiwalk", "bulkwalk", "table", "bulktable") and args.get("again"):
+        # the SAME wrapper: the operation is abandoned part-way (consumer stops after
+        # one item / transport times out), then repeated in full: must be equal again
+        how = args["again"]
+        wp.seam.reset(budget=200)
+        inner = wp.seam.responder
+        count = {"n": 0}
+
+        def lossy(data):
+            count["n"] += 1
+            return None if how == "timeout" and count["n"] > 1 else inner(data)
+
+        wp.seam.responder = lossy
+        try:
+            try:
+                if op in ("table", "bulktable"):
+                    do(op, wp, args, True)
+                else:
+                    c = wp.py
+                    dot = "." if args.get("leading_dot") else ""
+                    conv = lambda o: dot + oid_s(o)  # noqa: E731
+                    agen = c.walk(conv(args["root"])) if op == "walk" else c.multiwalk([conv(r) for r in args["roots"]]) if op == "multiwalk" else c.bulkwalk([conv(r) for r in args["roots"]], bulk_size=args["bulk"])
+
+                    async def partial():
+                        try:
+                            async for _ in agen:
+                                if how == "stop":
+                                    break
+                        finally:
+                            await agen.aclose()
+
+                    rig._run(partial())
+            except Exception:  # noqa: BLE001
+                pass
+        finally:
+            wp.seam.responder = inner
+            wp.seam.reset(budget=200)
+        again = rig.outcome(lambda: do(op, wp, args, True))
+        if again[0] != "ok" or norm_py(op, again[1]) != expect:
+            R.violation(case, "after an abandoned %s (%s) the same wrapper returned %r, expected %r" % (op, how, str(norm_py(op, again[1]) if again[0] == "ok" else again[1])[:200], str(expect)[:200]), None)
+            return
+        R.mon["repeated_after_abandoned_ok"] += 1
 
 
 def run(R):
@@ -233,6 +275,7 @@ def run(R):
             level = "v2c"
         db, args = gen_case(rng, op)
         args["leading_dot"] = rng.random() < 0.3
+        args["again"] = rng.choice((None, "stop", "timeout"))
         if level == "v1":
             # v1 cannot carry Counter64
             db = {k: (v if v[0] != "c64" else ("c32", v[1] % 2**32)) for k, v in db.items()}
@@ -251,5 +294,5 @@ def replay(R, v):
             return bytes.fromhex(x[4:])
         return x
 
-    args = {k: (val if k == "leading_dot" else fix(val)) for k, val in c["args"].items()}
+    args = {k: (val if k in ("leading_dot", "again") else fix(val)) for k, val in c["args"].items()}
     run_case(R, c["level"], c["op"], dec_db(c["db"]), args)
